@@ -12,11 +12,18 @@ export GOFLAGS=-mod=mod GOPROXY=off GOSUMDB=off GOTOOLCHAIN=local
 if [ ! -d $V ]; then git -C /verif worktree add -q --detach $V HEAD; (cd $V && python3 tools/mkregistry.py >/dev/null); fi
 w=/tmp/seed/$id/confirm
 rm -rf $w; git -C /repo worktree prune; git -C /repo worktree add -q --detach $w HEAD || exit 2
-pkgdir=$(grep -m1 -o -E '(proxy|backend|mysql|util|models|cc|parser|core)[A-Za-z0-9_/]*' $out/demo_${k}_test.go | head -1)
-pkgdir=${SEED_PKG:-$pkgdir}
 name=$(grep -o -E '^func (Test[A-Za-z0-9_]+)' $out/demo_${k}_test.go | sed 's/func //' | paste -sd'|')
+# the demo's directory: SEED_PKG, or the first directory declaring the demo's package in which the demo passes
+gopkg=$(grep -m1 -E '^package ' $out/demo_${k}_test.go | awk '{print $2}')
+cands=${SEED_PKG:-$(cd $w && grep -rl --include='*.go' -E "^package ${gopkg%_test}(_test)?\$" . | xargs -n1 dirname | sort -u | sed 's#^\./##' | grep -v '^vendor')}
+r0=1
+for pkgdir in $cands; do
+  cp $out/demo_${k}_test.go $w/$pkgdir/zz_seed_demo_test.go
+  (cd $w && go test -count=1 -run "^(${name})\$" ./$pkgdir/ >/tmp/seed/$id/without_$k.log 2>&1); r0=$?
+  [ $r0 -eq 0 ] && break
+  rm -f $w/$pkgdir/zz_seed_demo_test.go
+done
 cp $out/demo_${k}_test.go $w/$pkgdir/zz_seed_demo_test.go
-(cd $w && go test -count=1 -run "^(${name})\$" ./$pkgdir/ >/tmp/seed/$id/without_$k.log 2>&1); r0=$?
 (cd $w && git apply $out/mutation_$k.diff && go build ./... >/tmp/seed/$id/build_$k.log 2>&1); rb=$?
 (cd $w && go test -count=1 -run "^(${name})\$" ./$pkgdir/ >/tmp/seed/$id/with_$k.log 2>&1); r1=$?
 rm -f $w/$pkgdir/zz_seed_demo_test.go
